@@ -244,7 +244,17 @@ class Run:
             r = subprocess.run(cmd, env=e, capture_output=True, text=True, timeout=timeout, errors="replace")
         except subprocess.TimeoutExpired:
             raise Infra("driver %s timed out" % family)
-        if r.returncode != 0 and crash_ok and re.search(r"^(fatal error: |panic: )", r.stderr, re.M) and "\ngoroutine " in r.stderr:
+        crashed = r.returncode != 0 and re.search(r"^(fatal error: |panic: )", r.stderr, re.M) and "\ngoroutine " in r.stderr
+        if crashed and not crash_ok and "--workers" not in cmd and family in ("pkg", "plan", "iso", "config", "fault"):
+            # The driver runs its cases on several goroutines (independent configurations: allowed by C12).  A Go runtime
+            # crash there is C12's business; THIS property is decided on a run with one worker.
+            self.extra.setdefault("driver_crashed_with_parallel_workers", []).append({"family": family, "first": r.stderr[r.stderr.find("panic"):][:400]})
+            try:
+                r = subprocess.run(cmd + ["--workers", "1"], env=e, capture_output=True, text=True, timeout=timeout, errors="replace")
+            except subprocess.TimeoutExpired:
+                raise Infra("driver %s timed out (one worker)" % family)
+            crashed = False
+        if r.returncode != 0 and crash_ok and crashed:
             # a Go runtime crash of the driver process: the caller decides what it means
             shutil.rmtree(sc, ignore_errors=True)
             i = re.search(r"^(fatal error: |panic: )", r.stderr, re.M).start()
